@@ -219,7 +219,7 @@ fn first_occurrences(v: &[i64]) -> Vec<i64> {
 pub fn scenarios() -> Vec<Scn> {
   let mut v = vec![];
   for k in [SubjKind::Plain, SubjKind::Behavior, SubjKind::Replay] {
-    v.push(subj_scn(k, vec![vec![1, 2], vec![3, 4]], vec![Role::Resident], Some(2), Some(3)));
+    v.push(subj_scn(k, vec![vec![1, 2], vec![3, 4]], vec![Role::Resident], Some(3), Some(4)));
     v.push(subj_scn(k, vec![vec![1, 2]], vec![Role::Late], Some(2), Some(4)));
     v.push(subj_scn(k, vec![vec![1, 2]], vec![Role::Leaving], Some(2), Some(4)));
     v.push(subj_scn(k, vec![vec![1, 2]], vec![Role::Resident, Role::Late, Role::Leaving], Some(1), Some(2)));
@@ -233,7 +233,7 @@ pub fn scenarios() -> Vec<Scn> {
     v.push(subj_scn_x(k, vec![vec![1, 2]], vec![Role::Leaving, Role::Resident], true, Some(2), Some(3)));
     v.push(subj_scn_x(k, vec![vec![1, 2]], vec![Role::Resident, Role::Leaving], true, Some(2), Some(3)));
     v.push(subj_scn(k, vec![vec![1, 2], vec![3, 4]], vec![Role::Late], None, Some(3)));
-    v.push(subj_scn(k, vec![vec![1, 2], vec![3, 4]], vec![Role::Late, Role::Leaving], None, Some(2)));
+    v.push(subj_scn(k, vec![vec![1, 2], vec![3, 4]], vec![Role::Late, Role::Leaving], Some(1), Some(2)));
     v.push(subj_scn(k, vec![vec![1, 2, 3]], vec![Role::Late], None, Some(3)));
   }
   v
